@@ -299,6 +299,10 @@ def run(ctx):
                    f'the initial worker list sent to a new worker is filtered by identity only (extra filters: {sorted(set(x.split("::")[-1] for x in bad))}); on_remove_worker broadcasts LostWorker for every registered worker and WorkerState::remove_worker asserts the id is known', b.loc(bi))
     ctx.floor('R09.5', nsite, 1, 'NewWorkerMsg construction in the other_workers closure')
 
+    ctx.rule('R09.8', 'indices handed to a peer stay valid: the ComputeTasks builder clears its configuration index with the shared data; event-listener ids are unique among live listeners')
+    from . import shared_rules
+    shared_rules.compute_builder_index_reset(ctx, 'R09.8')
+    shared_rules.listener_ids_unique(ctx, 'R09.8')
     # ---- R09.6 / R09.7
     ctx.rule('R09.6', 'no panicking task lookup inside a loop whose body may remove tasks from the core (ids collected before the loop can be gone when their turn comes)')
     ctx.rule('R09.7', 'TaskQueue::remove asserts membership in one arm: every call site must be guarded by a test that implies the task is queue-resident (or no arm may diverge)')
